@@ -269,7 +269,7 @@ func (t *trace) request(o op, prev []float64) {
 		// resulting mismatch gets its own kind.
 		if !t.open && len(prev) >= 4 && prev[len(prev)-1] == 1 && (len(prev) == 4 || prev[len(prev)-5] == 32) {
 			// only on an otherwise empty path or after a closed subpath (recorded remainder of the
-			// defect); on top of an open subpath the MoveTo is kept since /repo 60bb9c2 and a mismatch
+			// defect); on top of an open subpath the MoveTo is kept since /repo 58c03cc and a mismatch
 			// there is an ordinary trace failure
 			t.mz = true
 		}
